@@ -346,8 +346,78 @@ class ItFineMPI(_StageMPI):
         yield 'canary:single_sweep_only', len([e for e in st.trace if e[0] == 'update_nodes']) == 1 and st.inst['nsweeps'] > 1
 
 
+class CommunicateConvergenceMPI(_StageMPI):
+    """CheckConvergence.communicate_convergence (MPI): a rank is done only if its predecessor is (done' = done and received flag), and it
+    forwards its own decision; with all_to_done the decision is the conjunction over all ranks (or a forced stop anywhere)"""
+
+    name = 'CheckConvergence.communicate_convergence'
+    target = ('pySDC/implementations/convergence_controller_classes/check_convergence.py', 'CheckConvergence.communicate_convergence')
+
+    def instances(self, tier):
+        out = []
+        for r, s in self.rs(tier):
+            out.append(dict(rank=r, size=s, all_to_done=True, prev_done=False, incoming=None))
+            for pd in (False, True):
+                for inc in (False, True):
+                    out.append(dict(rank=r, size=s, all_to_done=False, prev_done=pd, incoming=inc))
+        return out
+
+    def build(self, inst, mk):
+        import numpy as onp
+        from contracts.C09_mpi import P2PComm
+
+        st = setup_stage(mk, inst, 'IT_CHECK')
+        c, S = st.c, st.S
+        CC = next(x for x in st.real_ccs if type(x).__name__ == 'CheckConvergence')
+        st.CC = CC
+        c.params.all_to_done = inst['all_to_done']
+        comm = P2PComm(inst['rank'], inst['size'], mk, st.log, name='active')
+        comm.incoming = onp.array([inst['incoming']], dtype=bool) if inst['incoming'] is not None else None
+        st.others_and, st.others_or = mk.bool('all_others_done'), mk.bool('some_other_forced')
+
+        def allreduce(sendobj=None, op=None):
+            st.log.append(('allreduce', sendobj, op))
+            return sym.And(sendobj, st.others_and) if op == CC.MPI_LAND else sym.Or(sendobj, st.others_or)
+
+        comm.allreduce = allreduce
+        st.comm = comm
+        S.status.done = mk.bool('done')
+        S.status.force_done = mk.bool('force_done') if inst['all_to_done'] else False
+        st.done0, st.force0 = S.status.done, S.status.force_done
+        st.call = lambda: CC.communicate_convergence(c, S, comm)
+        return st
+
+    def post(self, st, old, result, exc):
+        S, inst, log, tr = st.S, st.inst, st.log, st.trace
+        r, n = inst['rank'], inst['size']
+        yield 'returns_normally', exc is None
+        if exc is not None:
+            return
+        if inst['all_to_done']:
+            forced = sym.Or(st.force0, st.others_or)
+            yield 'all_to_done:forced_stop_anywhere_forces_everyone', Iff(S.status.force_done, forced)
+            yield 'all_to_done:done_iff_everyone_done_or_forced', Iff(S.status.done, sym.Or(sym.And(st.done0, st.others_and), forced))
+        else:
+            recvs = [e for e in log if e[0] == 'Recv']
+            sends = [e for e in log if e[0] in ('Send', 'Isend')]
+            listen = r > 0 and not inst['prev_done']
+            yield 'receives_predecessors_status_iff_it_was_still_running', (len(recvs) == 1) == listen and len(recvs) <= 1 and (not recvs or recvs[0][1] == r - 1)
+            want = sym.And(st.done0, bool(inst['incoming'])) if listen else st.done0
+            yield 'done_only_if_predecessor_done', Iff(S.status.done, want)
+            if listen:
+                yield 'prev_done_is_the_received_flag', bool(S.status.prev_done) == bool(inst['incoming'])
+            if r < n - 1:
+                yield 'forwards_own_decision_to_the_next_rank', len(sends) == 1 and sends[0][1] == r + 1 and bool(Iff(bool(sends[0][3][0]), want)) is True
+            else:
+                yield 'last_rank_sends_nothing', not sends
+        yield 'hooks_grammar', [e[1] for e in tr if e[0] == 'hook'] == ['pre_comm', 'post_comm']
+
+    def canary(self, st, old, result, exc):
+        yield 'canary:done_flag_unchanged', Iff(st.S.status.done, st.done0) and (st.inst['all_to_done'] or (st.inst['rank'] > 0 and not st.inst['prev_done'] and not st.inst['incoming']))
+
+
 def _c03(b):
     return type(b.__name__ + '_C03', (b,), dict(prop='C03'))
 
 
-CONTRACTS = [SendFullMPI, RecvFullMPI, ItCheckMPI, ItCheckMPIForced, ItFineMPI]
+CONTRACTS = [SendFullMPI, RecvFullMPI, ItCheckMPI, ItCheckMPIForced, ItFineMPI, CommunicateConvergenceMPI]
